@@ -66,7 +66,9 @@ def c06(tier):
             g = [reset(opts), run1(df11(5, a)), run1(short(5, rng.getrandbits(13), a))]
             fr = other_format_frames(a, rng)
             rng.shuffle(fr)
-            for l in fr:
+            for j, l in enumerate(fr):
+                if j % 3 == k % 3:
+                    g.append(tick(rng.choice([31000, 45000, 59000])))      # the row has been silent for a while (but is not overdue)
                 g.append(run1(l))
                 g.append(run1(short(5, rng.getrandbits(13), a)) if rng.random() < 0.3 else run1(l))
             groups.append(g)
